@@ -292,6 +292,19 @@ class DilInterp(Interp):
                     st = st.cp()
                     st[('e', 'out')] = TUP(cur.items + (t,))
                     return [(st, 'U', None)]
+                if cn == "Manager" and f.attr in ("use_connection", "stop_using_connection") and ctx.cls.wiring.get(recv) not in self.scope:
+                    # the data-plane halves (Inbound / Outbound) are told about every connection and about its loss, in pairs
+                    k = ('e', 'uc:' + recv)
+                    if f.attr == "use_connection":
+                        if st.get(k) == 'T':
+                            self.add_viol("connection-not-released", "Manager hands a new connection to self.%s although it never told it to stop "
+                                                                     "using the previous one" % recv, site="%s:%d" % (ctx.cls.file, call.lineno))
+                        st = st.cp()
+                        st[k] = 'T'
+                    else:
+                        st = st.cp()
+                        st[k] = 'F'
+                    return [(st, 'U', None)]
                 if cn == "Manager" and recv == self.conn_attr and f.attr in ("disconnect", "loseConnection"):
                     # the Manager asks its connection in use to go away
                     st = self.mark(st, 'disc')
@@ -315,6 +328,22 @@ class DilInterp(Interp):
             if tgt.name == "Manager" and meth == "send_ping":
                 if truth(st.get(('a', 'Manager', self.conn_attr), 'U')) == 'T':
                     st = self.mark(st, 'ping_out')
+                # what runs when the pong comes back: the callback handed to send_ping (closure, lambda or bound method)
+                fn_ps = [a.arg for a in tgt.methods["send_ping"].args.args][1:]
+                cb = call.args[1] if len(call.args) > 1 else next((k.value for k in call.keywords if len(fn_ps) > 1 and k.arg == fn_ps[1]), None)
+                if cb is not None:
+                    from .astutil import callback_function
+                    encl = getattr(call, "_parent", None)
+                    while encl is not None and not isinstance(encl, (ast.FunctionDef, ast.AsyncFunctionDef)):
+                        encl = getattr(encl, "_parent", None)
+                    target = callback_function(cb, encl, dict(ctx.cls.methods))
+                    if target is not None:
+                        if isinstance(target, ast.FunctionDef) and target.name in ctx.cls.methods and ctx.cls.methods[target.name] is target:
+                            cid, what = "%s.%s" % (cn, target.name), target.name
+                        else:
+                            cid, what = "%s.<pong callback@%d>" % (cn, target.lineno), target
+                        self.continuations[cid] = (ctx.cls, what)
+                        st = self.mark(st, 'pong_cb', C(cid))
         return Interp.do_call(self, call, st, ctx, argvals, kwvals)
 
     def run_method(self, cls, meth, st, locs, is_output=False):
@@ -601,6 +630,10 @@ class DilExplorer:
                     s[('e', 'ping_out')] = 'F'
                     s[('e', 'exp')] = ZERO
                     s[('e', 'missed')] = ZERO
+                    cb = s.get(('e', 'pong_cb'))
+                    if isinstance(cb, C) and cb.v in I.continuations:
+                        # the Manager's own on_pong callback, with an unknown round-trip time
+                        return [self.settle(j, x, s2) for s2 in self.tops(I.run_continuation(cb.v, s))]
                     return [self.settle(j, x, s2) for s2 in self.tops(I.fire(T, "traffic_seen", s, {}))]
                 evs.append((x + ".pong", pong))
         # links
